@@ -31,7 +31,7 @@ META = {
     "id": "C14",
     "coq_targets": ["Props/C14.vo", "Extract/Extract_C14.vo"],
     "technique": "Coq proof of the reshaping around the three formats (CSV rows/header -> explicit-map import; split_position_attr -> rename + _combine_multi_value_props; FeatureDict dump_json -> from_json; activate-vs-recompute of existing track ids) with the file IO as explicit oracle hypotheses + end-to-end differential round trips on the implementation (the property is its own oracle) + correspondence of the extracted model with the files the implementation writes and the graphs it reads back",
-    "level_text": "Theorems C14_csv_roundtrip / C14_csv_roundtrip_exact / C14_geff_position_roundtrip / C14_geff_attrs_roundtrip / C14_internal_featuredict_roundtrip / C14_track_ids_kept hold for graphs of every size and positions of every length (CSV: 2 or 3 axes as the exporter writes them); pandas/json IO enters as the hypothesis io x = x, geff IO as the modelled transposition geff_columns. The identity on the implementation (all attributes, segmentation, scale, FeatureDict) is established by testing only: every generated tracks object is exported and re-imported in all three formats and compared field by field. Source tie: the import pipeline of the model (rename, combination of list-mapped columns, id integerisation, edge derivation, structural validation, graph construction, handle_segmentation; whole CSV build = import_csv, whole GEFF build = import_geff) equals, for all arguments, the code translated on every run from _tracks_builder.py, csv/_import.py, geff/_import.py and _validation.py (Gen/ImportPipeline_gen.v; Proofs/ImportTie.v, 24 closed theorems); pandas dtype inference, geff's id validators and file reading stay oracle inputs. Source tie: the export side of the model (CSV rows and header, the relabelled label image with its dtype choice and the empty selection, GEFF subgraph and the chunk loop masking the array, split_position_attr, FeatureDict dump / from_json) equals, for all arguments, the code translated on every run from csv/_export.py, geff/_export.py, internal_format.py and _feature_dict.py (Gen/ExportPipeline_gen.v; Proofs/ExportTie.v, 21 closed theorems); every file write is an event carrying exactly the value handed to the writer.",
+    "level_text": "Theorems C14_csv_roundtrip / C14_csv_roundtrip_exact / C14_geff_position_roundtrip / C14_geff_attrs_roundtrip / C14_internal_featuredict_roundtrip / C14_track_ids_kept hold for graphs of every size and positions of every length (CSV: 2 or 3 axes as the exporter writes them); pandas/json IO enters as the hypothesis io x = x, geff IO as the modelled transposition geff_columns. The identity on the implementation (all attributes, segmentation, scale, FeatureDict) is established by testing only: every generated tracks object is exported and re-imported in all three formats and compared field by field. Source tie: the import pipeline of the model (rename, combination of list-mapped columns, id integerisation, edge derivation, structural validation, graph construction, handle_segmentation; whole CSV build = import_csv, whole GEFF build = import_geff) equals, for all arguments, the code translated on every run from _tracks_builder.py, csv/_import.py, geff/_import.py and _validation.py (Gen/ImportPipeline_gen.v; Proofs/ImportTie.v, 24 closed theorems); pandas dtype inference, geff's id validators and file reading stay oracle inputs. Source tie: the export side of the model (CSV rows and header, the relabelled label image with its dtype choice and the empty selection, GEFF subgraph and the chunk loop masking the array, split_position_attr, FeatureDict dump / from_json) equals, for all arguments, the code translated on every run from csv/_export.py, geff/_export.py, internal_format.py and _feature_dict.py (Gen/ExportPipeline_gen.v; Proofs/ExportTie.v, 21 closed theorems); every file write is an event carrying exactly the value handed to the writer. C14_generated_csv_roundtrip / C14_generated_geff_roundtrip / C14_generated_featuredict_roundtrip: the round trip stated for the translated code end to end - generated export, the value of its write event read back (IO oracle), generated import build - returns the original nodes, edges, times, positions and track ids.",
     "level_note": "Trusted: Coq kernel, extraction (ExtrOcamlBasic), OCaml driver, Python harness. Modelled not verified: pandas DataFrame/to_csv/read_csv, geff.write/read_to_memory/construct, json, np.save/np.load, zarr, networkx node_link_data; their effect is compared value by value on every generated case (model command C for the geff property arrays, X/I for the CSV table).",
     "design_ref": "DESIGN.md section 9 (C14)",
     "assumptions": [
@@ -796,6 +796,78 @@ def evaluate(seed, kind, idx, stats, violations, samples, distinct, jobs_out, wa
     return evals
 
 
+def display_name_cases(rng, n):
+    """CSV export with use_display_names=True (header built from the feature registry) and re-import through the
+    name map read off the same registry: single-key and per-axis positions, 2D and 3D, no segmentation.
+    Yields (description, complaint or None)."""
+    import shutil
+    import tempfile
+
+    import networkx as nx
+    import pandas as pd
+    from funtracks.data_model import SolutionTracks
+    from funtracks.import_export import export_to_csv, tracks_from_df
+
+    root = Path(tempfile.mkdtemp(prefix="funverif."))
+    try:
+        for k in range(n):
+            nd = rng.choice([2, 2, 3])
+            axes = ["z", "y", "x"][-nd:]
+            per_axis = rng.random() < 0.6
+            nn = rng.randint(2, 6)
+            ids = rng.sample(range(1, 60), nn)
+            g = nx.DiGraph()
+            for j, i_ in enumerate(ids):
+                pos = [float(rng.randint(0, 40)) + 0.5 * a for a in range(nd)]
+                attrs = {"time": j // 2}
+                if per_axis:
+                    attrs.update({a: p for a, p in zip(axes, pos)})
+                else:
+                    attrs["pos"] = pos
+                g.add_node(i_, **attrs)
+            for j in range(2, nn):
+                if rng.random() < 0.7:
+                    g.add_edge(ids[j - 2], ids[j])
+            tr = SolutionTracks(g, ndim=nd + 1, pos_attr=axes if per_axis else "pos") if per_axis else SolutionTracks(g, ndim=nd + 1)
+            desc = {"case": k, "per_axis": per_axis, "ndim": nd + 1, "nodes": {int(i_): dict(g.nodes[i_]) for i_ in ids}, "edges": [list(e) for e in g.edges]}
+            path = root / "d.csv"
+            try:
+                export_to_csv(tr, path, use_display_names=True)
+                df = pd.read_csv(path)
+                header = list(pd.read_csv(path, header=None, nrows=1).iloc[0])
+                if len(set(header)) != len(header):
+                    yield desc, "display-name header has repeated columns %s: values are lost" % header
+                    continue
+
+                def col(key):
+                    f = tr.features[key]
+                    return f.get("display_name", key)
+                pk = tr.features.position_key
+                if isinstance(pk, list):
+                    pos_cols = [col(a) for a in pk]
+                else:
+                    f = tr.features[pk]
+                    pos_cols = list(f.get("value_names") or [])
+                nm = {"id": "ID", "parent_id": "Parent ID", "time": col(tr.features.time_key), "pos": pos_cols,
+                      "track_id": col(tr.features.tracklet_key)}
+                back = tracks_from_df(df, node_name_map=nm)
+                bad = None
+                if sorted(back.graph.nodes) != sorted(tr.graph.nodes) or sorted(back.graph.edges) != sorted(tr.graph.edges):
+                    bad = "nodes / edges differ after the display-name round trip"
+                else:
+                    for n_ in tr.graph.nodes:
+                        p0, p1 = [float(x) for x in tr.get_position(n_)], [float(x) for x in back.get_position(n_)]
+                        if p0 != p1 or int(tr.get_time(n_)) != int(back.get_time(n_)) or int(tr.get_track_id(n_)) != int(back.get_track_id(n_)):
+                            bad = "node %d: exported time %s pos %s track %s, read back time %s pos %s track %s (header %s)" % (
+                                n_, tr.get_time(n_), p0, tr.get_track_id(n_), back.get_time(n_), p1, back.get_track_id(n_), header)
+                            break
+                yield desc, bad
+            except Exception as e:  # noqa: BLE001
+                yield desc, "display-name CSV round trip raised %s: %s" % (type(e).__name__, str(e)[:160])
+    finally:
+        shutil.rmtree(root, ignore_errors=True)
+
+
 def run(ctx):
     n_edit, n_fresh, n_tid = (40, 16, 40) if ctx.quick() else (260, 100, 400)
     n_zero = 8 if ctx.quick() else 40
@@ -808,6 +880,12 @@ def run(ctx):
         evals += evaluate(ctx.seed, "fresh", i, stats, violations, samples, distinct, jobs)
     for i in range(n_zero):
         evals += evaluate(ctx.seed, "zero", i, stats, violations, samples, distinct, jobs)
+    for desc, bad in display_name_cases(ctx.rng, 30 if ctx.quick() else 300):
+        evals += 1
+        stats["display_name_csv"] = stats.get("display_name_csv", 0) + 1
+        stats["display_name_csv_per_axis"] = stats.get("display_name_csv_per_axis", 0) + int(desc["per_axis"])
+        if bad:
+            violations.append({"what": "CSV with display names: " + bad, "input": desc, "signature": "C14:display-names"})
     for label, line, impl in track_id_cases(ctx.rng, n_tid):
         jobs.append(({"kind": "track-id-case"}, label, line, impl))
         evals += 1
